@@ -1,28 +1,29 @@
-"""Direction A replayer for the value families (C01-C03 and later the derived measures):
-feed the spec's payload to the real Cube, compare every output the spec emitted."""
+"""Direction A replayer for the value families: feed the spec's payload and configuration
+to the real Cube, compare every output the spec emitted."""
+import datetime
 import warnings
-
-import numpy as np
 
 from cr.cube.cube import Cube
 
+import configs
 import envelope
 from project import compare, to_py
 from runner import Mismatch
 
-# outputs that are not library properties but projections computed here
-PSEUDO = {"row_pos", "column_pos"}
-
-YPROP_MEASURE = {"means": "mean", "sums": "sum", "stddev": "stddev", "medians": "median"}
+YPROP_MEASURE = {"means": "mean", "sums": "sum", "stddev": "stddev", "medians": "median",
+                 "smoothed_means": "mean"}
 
 
-def _labels_to_pos(dim, labels):
+def _labels_to_pos(dim, labels, dc=None, live=None):
     names = {}
+    if dc is not None and live:
+        src = dc["xins"] if dc["hasx"] else dc["vins"]
+        for s_idx, src_idx in enumerate(live):
+            names.setdefault(src[src_idx - 1]["name"], -(s_idx + 1))
     for p in range(1, dim["n"] + 1):
         if dim["kind"] in ("mr", "caitems", "numarr"):
             names[envelope._item_name(dim, p)] = p
         elif dim.get("subtype") == "datetime":
-            import datetime
             names[datetime.datetime(2021, p, 1).strftime("%b %Y")] = p
         elif dim.get("subtype") == "binned":
             names["%d-%d" % (10 * (p - 1), 10 * p)] = p
@@ -33,34 +34,74 @@ def _labels_to_pos(dim, labels):
 
 def slice_dims(scn):
     dims = scn["dims"]
-    if len(dims) == 3:
-        return dims[1], dims[2]
-    if len(dims) == 2:
-        return dims[0], dims[1]
-    return dims[0], None
+    ri, ci = envelope.slice_dim_indexes(dims)
+    return dims[ri], (dims[ci] if ci is not None else None)
 
 
-def observe(part, prop, scn):
+def kind_name(dim):
+    if dim is None:
+        return "-"
+    if dim.get("date"):
+        return "catdate"
+    return dim.get("subtype") or dim["kind"]
+
+
+def observe(part, prop, scn, cfg, aux):
     if prop == "row_pos":
         rd, _ = slice_dims(scn)
-        return _labels_to_pos(rd, list(part.row_labels))
+        return _labels_to_pos(rd, list(part.row_labels), cfg["rows"], aux.get("rsubs"))
     if prop == "column_pos":
         _, cd = slice_dims(scn)
-        return _labels_to_pos(cd, list(part.column_labels))
+        return _labels_to_pos(cd, list(part.column_labels), cfg["cols"], aux.get("csubs"))
     obj = part
     for name in prop.split("__"):
         obj = getattr(obj, name)
     return obj
 
 
-def features_of(rec, scn):
+def features_of(rec, scn, aux):
     f = []
     flat = rec["flat"]
     if sum(flat["counts"]) == 0:
         f.append("empty_data")
     if flat["counts"] != flat["count"]:
         f.append("weights_differ")
+    if aux:
+        if any(r < 0 for r in aux["rows"]):
+            f.append("ins_rows")
+        if any(c < 0 for c in aux["cols"]):
+            f.append("ins_cols")
+        if any(aux["rdiff"]):
+            f.append("diff_rows")
+        if any(aux["cdiff"]):
+            f.append("diff_cols")
+        if any(aux["rdiff"]) and any(aux["cdiff"]):
+            f.append("diff_x_diff")
+        if any(r < 0 for r in aux["rows"]) and any(c < 0 for c in aux["cols"]):
+            f.append("intersection")
     return f
+
+
+def cell_tags(path, nd, aux, two_d):
+    """where in the partition the first failing leaf sits"""
+    t = {}
+    if not aux or not path:
+        return t
+    rows, cols = aux["rows"], aux["cols"]
+    if two_d and nd == 2 and len(path) >= 2:
+        i, j = path[0], path[1]
+        ri = i < len(rows) and rows[i] < 0
+        cj = j < len(cols) and cols[j] < 0
+        t["cell"] = ("intersection" if ri and cj else "ins_row" if ri else
+                     "ins_col" if cj else "base")
+        rd = i < len(aux["rdiff"]) and aux["rdiff"][i]
+        cdf = j < len(aux["cdiff"]) and aux["cdiff"][j]
+        t["diff"] = "both" if rd and cdf else "row" if rd else "col" if cdf else "no"
+    elif not two_d and nd == 1:
+        i = path[0]
+        t["cell"] = "ins_row" if i < len(rows) and rows[i] < 0 else "base"
+        t["diff"] = "row" if i < len(aux["rdiff"]) and aux["rdiff"][i] else "no"
+    return t
 
 
 def replay(job, rec):
@@ -68,53 +109,68 @@ def replay(job, rec):
     scn = job["scn"]
     prop_id = job["prop_id"]
     only = job.get("only_props")
-    resp = envelope.build_response(scn, rec)
+    skip = set(job.get("skip_props") or ())
+    cfg = (scn.get("configs") or [configs.DEFAULT])[rec.get("ci", 1) - 1]
+    resp = envelope.build_response(scn, rec, cfg)
+    xf = configs.transforms_dict(cfg)
+    aux = rec.get("aux") or {}
+    rd, cd = slice_dims(scn)
+    base_tags = {"rows": kind_name(rd), "cols": kind_name(cd), "nd": len(scn["dims"]),
+                 "ins_rows": any(r < 0 for r in aux.get("rows", ())),
+                 "ins_cols": any(c < 0 for c in aux.get("cols", ())),
+                 "vc": bool(scn.get("valid_counts"))}
     mism = []
     evals = 0
-    feats = features_of(rec, scn)
+    feats = features_of(rec, scn, aux)
     with warnings.catch_warnings(record=True) as wlog:
         warnings.simplefilter("always")
         try:
             cube = Cube(resp, population=scn.get("population"), mask_size=scn["min_base"],
-                        transforms=rec.get("xf"))
+                        transforms=xf)
             parts = cube.partitions
         except Exception as e:  # noqa
-            mism.append(Mismatch(prop_id, "construct|raises=%s" % type(e).__name__,
-                                 "constructing partitions raised %r" % (e,), {}))
+            mism.append(Mismatch(prop_id, None, "constructing partitions raised %r" % (e,), {},
+                                 tags=dict(base_tags, prop="<construct>",
+                                           raises=type(e).__name__)))
             return {"evaluations": 1, "mismatches": mism, "nontrivial": True, "features": feats}
         if len(parts) != len(rec["parts"]):
-            mism.append(Mismatch(prop_id, "partitions|count",
-                                 "library yields %d partitions, spec %d" %
-                                 (len(parts), len(rec["parts"])), {}))
+            mism.append(Mismatch(prop_id, None, "library yields %d partitions, spec %d" %
+                                 (len(parts), len(rec["parts"])), {},
+                                 tags=dict(base_tags, prop="<partitions>")))
             return {"evaluations": 1, "mismatches": mism, "nontrivial": True, "features": feats}
         for k, (part, exp) in enumerate(zip(parts, rec["parts"])):
             for prop, e in exp.items():
-                if only and prop not in only:
+                if prop in skip or (only and prop not in only):
                     continue
                 if prop in YPROP_MEASURE and YPROP_MEASURE[prop] not in scn.get("ymeasures", ()):
                     continue
                 evals += 1
                 nwarn = len(wlog)
                 try:
-                    obs = observe(part, prop, scn)
+                    obs = observe(part, prop, scn, cfg, aux)
                 except Exception as ex:  # noqa
-                    mism.append(Mismatch(prop_id, "prop=%s|raises=%s" % (prop, type(ex).__name__),
+                    mism.append(Mismatch(prop_id, None,
                                          "%s raised %r (partition %d)" % (prop, ex, k),
-                                         {"partition": k}))
+                                         {"partition": k},
+                                         tags=dict(base_tags, prop=prop,
+                                                   raises=type(ex).__name__)))
                     continue
                 if len(wlog) > nwarn and job.get("report_warnings"):
                     w = wlog[-1]
                     feats.append("runtime_warning")
-                    mism.append(Mismatch(prop_id, "prop=%s|warns=%s" % (prop, w.category.__name__),
+                    mism.append(Mismatch(prop_id, None,
                                          "%s emitted %s: %s" % (prop, w.category.__name__, w.message),
-                                         {}, severity="drift"))
+                                         {}, severity="drift",
+                                         tags={"prop": prop, "warns": w.category.__name__}))
                 errs = compare(obs, e)
                 if errs:
                     path, o, x = errs[0]
+                    tags = dict(base_tags, prop=prop, out_nd=e.get("nd", 0))
+                    tags.update(cell_tags(path, e.get("nd", 0), aux, cd is not None))
                     mism.append(Mismatch(
-                        prop_id, "prop=%s" % prop,
+                        prop_id, None,
                         "%s[%s] partition %d: library %r, spec %r" %
                         (prop, ",".join(map(str, path)), k, o, x),
-                        {"partition": k, "observed": to_py(obs), "expected": e}))
+                        {"partition": k, "observed": to_py(obs), "expected": e}, tags=tags))
     return {"evaluations": evals, "mismatches": mism,
             "nontrivial": "empty_data" not in feats, "features": feats}
